@@ -21,6 +21,7 @@ open Num Conv
 @[simp] theorem rat_eq (a b : Rat) : (a ==. b) = true ↔ a = b := by simp [Num.eq]
 @[simp] theorem rat_ofNat (n : Nat) : (Num.ofNat n : Rat) = (n : Rat) := rfl
 @[simp] theorem rat_isNaN (a : Rat) : Num.isNaN a = false := rfl
+@[simp] theorem rat_isFinite (a : Rat) : Num.isFinite a = true := rfl
 @[simp] theorem rat_up (a : Rat) : (Conv.up a : Rat) = a := rfl
 @[simp] theorem rat_down (a : Rat) : (Conv.down a : Rat) = a := rfl
 
